@@ -316,6 +316,10 @@ def roundtrip(T, cls, pkt, cmp, ctx, table_id):
     from minecraft.networking.packets import PacketBuffer
     obs = {'wrote': False, 'idok': False, 'remaining': -1, 'same': False, 'reprok': False, 'err': ''}
     buf = PacketBuffer()
+    try:        # a write that fails part-way (fields never set) must leave nothing behind for the next write
+        cls(context=ctx).write(PacketBuffer())
+    except Exception:       # noqa
+        pass
     try:
         pkt.write(buf)
         obs['wrote'] = True
